@@ -53,7 +53,10 @@ META = {
              "'e' enumerated discard/remove of an equal twin from an observed set, 'm' enumerated "
              "multiplicity-changing list events (one event with the same object removed and added a "
              "different number of times, then one occurrence leaves) and observable constant defaults "
-             "(materialised by a read after observe(), replaced, or assigned to themselves unread).  "
+             "(materialised by a read after observe(), replaced, or assigned to themselves unread), "
+             "'n' enumerated and 'r' random histories with a named dynamic trait (Int / Instance / "
+             "List, added to every node before observe() and named by ordinary expressions) that is "
+             "removed, added again under the same or another kind and used again.  "
              "distinct_nontrivial "
              "counts distinct (stratum, step kind, method, expression shape, text/object form, all-equal "
              "flag, expected, observed) signatures of steps in which the model expected an event, an "
@@ -75,7 +78,10 @@ META = {
                   "multi_level_histories": 200, "cyclic_nonmulti_probe_checks": 30000,
                   "object_form_registrations": 500, "text_form_registrations": 500,
                   "reslice_ops": 90, "multiplicity_change_events": 50, "const_default_reads": 45,
-                  "histories_multiplicity": 90, "histories_const_default": 80},
+                  "histories_multiplicity": 90, "histories_const_default": 80,
+                  "histories_named_dynamic": 95, "histories_dynamic": 130, "remove_trait_ops": 350,
+                  "remove_trait_reached": 150, "readd_ops": 300, "readd_reached": 150,
+                  "readd_events_matched": 300},
         "thorough": {"evaluations": 6000000, "probe_matched": 200000, "probe_silent": 4000000,
                      "detached_silent": 80000, "container_events_matched": 240000,
                      "link_events_matched": 10000, "quiet_link_silent": 60000,
@@ -87,13 +93,20 @@ META = {
                      "multi_level_histories": 2500, "cyclic_nonmulti_probe_checks": 600000,
                      "object_form_registrations": 10000, "text_form_registrations": 10000,
                      "reslice_ops": 1200, "multiplicity_change_events": 300, "const_default_reads": 600,
-                     "histories_multiplicity": 90, "histories_const_default": 80},
+                     "histories_multiplicity": 90, "histories_const_default": 80,
+                     "histories_named_dynamic": 95, "histories_dynamic": 4000, "remove_trait_ops": 7000,
+                     "remove_trait_reached": 1800, "readd_ops": 6000, "readd_reached": 1600,
+                     "readd_events_matched": 4000},
     },
     "assumptions": [
         "the reachability model (denotation of the mini-language over __dict__ values and the "
         "harness's own trait schema) is the specification",
         "Node.__eq__ is identity, or 'all nodes equal' in the all-equal flavour; handlers never raise",
         "unregistration, dispatch='ui' and failing registrations belong to C09",
+        "remove_trait itself is outside the statement (it fires no event, enthought/traits#1047): "
+        "it must be silent and un-match the name; what was hooked only through the removed trait is "
+        "never again required to be silent, and failures while a required name is missing end the "
+        "history without a verdict; a later add_trait of the name must be tracked again",
     ],
     "case_timeout": 300,
 }
@@ -161,19 +174,33 @@ LINKS = ("child", "other", "lazy", "cdef")
 CONTS = {"children": "list", "cmap": "dict", "cset": "set"}
 INTS = ("value", "m1")
 # traits the histories may add to single instances: name -> (kind, metadata names)
-ADDABLE = {"x0": ("int", ("tag",)), "y0": ("int", ()), "items": ("link", ("link",))}
+# (the kind is the one the name is first added with; a removed trait may come back
+# under the same name with another kind, World.added holds the current one)
+ADDABLE = {"x0": ("int", ("tag",)), "y0": ("int", ()), "items": ("link", ("link",)),
+           # named dynamic traits of the 'dyn' histories: they exist (add_trait) on every node
+           # before observe(), so that ordinary non-optional expressions can name them
+           "xint": ("int", ()), "xlink": ("link", ()), "xlist": ("list", ())}
+DYN_NAMES = ("xint", "xlink", "xlist")
 KEYS = ("x", "y", "z")
 MISSING = object()
 SKIP = (None, Undefined, Uninitialized, MISSING)
 CONT_CLS = {"list": TraitList, "dict": TraitDict, "set": TraitSet}
 
 
-def make_added_trait(name):
+def make_added_trait(name, kind=None):
     if name == "x0":
         return Int(tag=True)
     if name == "y0":
         return Int()
-    return Instance(Node, link=True)
+    if name == "items":
+        return Instance(Node, link=True)
+    kind = kind or ADDABLE[name][0]
+    return Int() if kind == "int" else Instance(Node) if kind == "link" else List(Instance(Node))
+
+
+def _ckind(c):
+    return "list" if isinstance(c, TraitList) else "dict" if isinstance(c, TraitDict) else \
+        "set" if isinstance(c, TraitSet) else None
 
 
 # ---------------------------------------------------------------------------
@@ -552,7 +579,7 @@ class Illegal(Exception):
 
 
 class RegModel:
-    __slots__ = ("notif", "depths", "nested", "error", "nested_keys")
+    __slots__ = ("notif", "depths", "nested", "error", "nested_keys", "visits", "degraded")
 
     def __init__(self):
         self.notif = set()
@@ -560,6 +587,8 @@ class RegModel:
         self.nested = False
         self.error = False
         self.nested_keys = set()
+        self.visits = {}           # key -> number of walk visits (path multiplicity)
+        self.degraded = False      # a required trait was taken away by remove_trait
 
 
 class Recorder:
@@ -623,7 +652,17 @@ class World:
             "cdef": self.shared if self.cflavour == "override" else Any(self.shared),
             "__module__": __name__})
         self.pool = [self.cls(ser=i) for i in range(spec["npool"])] + [self.shared]
+        self.removed = {}          # id(node) -> names taken away by remove_trait
+        self.tainted = set()       # ids of nodes whose hooks remove_trait left undefined
+        self.tainted_conts = []    # containers in the same situation (kept alive)
+        self.pending_readd = []    # [(pool index, name, kind)] removed, not yet re-added
+        self.readded = set()       # (id(node), name) of traits that came back
+        self.through_readd = set() # ids of nodes attached through a trait that came back
+        self.dyn = spec.get("dyn")
         self.last_rep = None
+        self.after_readd = None
+        self.any_dyn_list = False
+        self.retired_owner = {}    # id(retired container) -> (id(owner), trait name)
         self.selfdef = False       # sticky signature, see unread_default_assign
         self.added = {}            # id(node) -> {name: kind}
         self.retired = []          # [(label, kind, container)]
@@ -639,6 +678,18 @@ class World:
         self.temp = []
         self.opclass = "start"
         self.stratum = spec.get("stratum", "t")
+        if self.dyn:
+            for n in self.pool:
+                self._give_dyn(n)
+
+    def _give_dyn(self, n):
+        """Named dynamic trait of a 'dyn' history: present on every node (pool,
+        shared default, probe nodes) from the start, i.e. before observe()."""
+        name, kind = self.dyn["name"], self.dyn["kind"]
+        n.add_trait(name, make_added_trait(name, kind))
+        self.added.setdefault(id(n), {})[name] = kind
+        if kind == "list":
+            self.any_dyn_list = True
 
     # -- schema ------------------------------------------------------------
     def has(self, obj, name):
@@ -646,17 +697,30 @@ class World:
             return False
         return name in CLASS_TRAITS or name in self.added.get(id(obj), ())
 
+    def cont_kind(self, obj, name):
+        """Container kind of trait `name` of `obj` (None for links and ints)."""
+        if name in CONTS:
+            return CONTS[name]
+        return "list" if self.added.get(id(obj), {}).get(name) == "list" else None
+
+    def links_of(self, n):
+        return [(nm, v) for nm, v in n.__dict__.items() if isinstance(v, Node)]
+
+    def conts_of(self, n):
+        return [(nm, _ckind(c), c) for nm, c in n.__dict__.items() if _ckind(c)]
+
     def names(self, obj, kind, arg):
         ad = self.added.get(id(obj), {})
         if kind == "any":
-            return list(CLASS_TRAITS) + list(ad)
+            # a dynamic List trait brings its `<name>_items` event trait along
+            return list(CLASS_TRAITS) + list(ad) + [n + "_items" for n, kd in ad.items() if kd == "list"]
         out = [n for n in CLASS_TRAITS if arg in CLASS_META.get(n, ())]
         out += [n for n in ad if arg in ADDABLE[n][1]]
         return out
 
     def int_names(self, obj):
         ad = self.added.get(id(obj), {})
-        return list(INTS) + [n for n in ad if ADDABLE[n][0] == "int"]
+        return list(INTS) + [n for n, kd in ad.items() if kd == "int"]
 
     def label(self, key):
         if key[0] == "t":
@@ -665,8 +729,8 @@ class World:
                     return "%r.%s" % (n, key[2])
             return "?.%s" % key[2]
         for n in self.pool + self.temp:
-            for tr in CONTS:
-                if id(n.__dict__.get(tr)) == key[1]:
+            for tr, _, c in self.conts_of(n):
+                if id(c) == key[1]:
                     return "%r.%s[]" % (n, tr)
         for lab, _, c in self.retired:
             if id(c) == key[1]:
@@ -687,6 +751,11 @@ class World:
                 obs = [(("t", id(obj), arg), obj)]
             elif opt:
                 obs = []
+            elif arg in self.removed.get(id(obj), ()):
+                # remove_trait took a required dynamic trait away (silently, no event):
+                # nothing is matched below it until the name is added again
+                obs = []
+                m.degraded = True
             else:
                 m.error = True
                 return
@@ -706,6 +775,7 @@ class World:
         last = i + 1 == len(path)
         for key, holder in obs:
             m.depths.setdefault(key, set()).add(i)
+            m.visits[key] = m.visits.get(key, 0) + 1
             if key in chain:
                 m.nested = True
                 m.nested_keys.add(key)
@@ -742,15 +812,10 @@ class World:
     # -- pool graph helpers --------------------------------------------------
     def edges(self, n):
         out = []
-        d = n.__dict__
-        for tr in LINKS + ("items",):
-            v = d.get(tr)
-            if isinstance(v, Node):
-                out.append(v)
-        for tr in CONTS:
-            c = d.get(tr)
-            if c is not None:
-                out.extend(c.values() if isinstance(c, dict) else list(c))
+        for _, v in self.links_of(n):
+            out.append(v)
+        for _, _, c in self.conts_of(n):
+            out.extend(c.values() if isinstance(c, dict) else list(c))
         return out
 
     def reaches(self, src, dst):
@@ -786,16 +851,14 @@ class World:
         for n in self.pool:
             d = n.__dict__
             ent = {}
-            for tr in LINKS + ("items",):
+            for tr in LINKS + ("items", "xlink"):
                 if tr in d:
                     ent[tr] = repr(d[tr])
-            for tr in CONTS:
-                if tr in d:
-                    c = d[tr]
-                    ent[tr] = repr(dict(c)) if isinstance(c, dict) else repr(sorted(c, key=repr)) \
-                        if isinstance(c, set) else repr(list(c))
+            for tr, _, c in self.conts_of(n):
+                ent[tr] = repr(dict(c)) if isinstance(c, dict) else repr(sorted(c, key=repr)) \
+                    if isinstance(c, set) else repr(list(c))
             if id(n) in self.added:
-                ent["added"] = sorted(self.added[id(n)])
+                ent["added"] = sorted("%s:%s" % kv for kv in self.added[id(n)].items())
             out[repr(n)] = ent
         return out
 
@@ -820,6 +883,10 @@ class World:
             m1 = m0
         self.nstep += 1
         if any(m.error for m in m0) or any(m.error for m in m1):
+            raise Illegal()
+        if exc is not None and (any(m.degraded for m in m0) or any(m.degraded for m in m1)):
+            # while a required trait is missing (remove_trait fires no event, the statement
+            # does not cover it) traits' own walks may legitimately fail
             raise Illegal()
         if exc is not None:
             raise Complaint("escape:" + type(exc).__name__,
@@ -891,7 +958,9 @@ class World:
         nmatched = 0
         for k, reg in enumerate(self.regs):
             matched = key in m0[k].notif
-            self._judge_trait(k, reg, what, obj, name, {1} if matched else {0}, "leaf",
+            lenient = not matched and id(obj) in self.tainted
+            self._judge_trait(k, reg, what, obj, name, {1} if matched else {0, 1} if lenient else {0},
+                              "leaf",
                               lambda o: type(o) is int and o == cur,
                               lambda v: type(v) is int and v == new, tag, name if name in INTS
                               else "added")
@@ -907,6 +976,8 @@ class World:
             if self.was_cyclic and not self.multi:
                 self.sink.count("cyclic_nonmulti_probe_checks")
             nmatched += matched
+            if matched and ((id(obj), name) in self.readded or id(obj) in self.through_readd):
+                self.sink.count("readd_events_matched")
         return nmatched
 
     # -- primitive: assignment of a link / container trait --------------------
@@ -918,11 +989,16 @@ class World:
         key = ("t", id(obj), name)
         exc = self._run(lambda: setattr(obj, name, value))
         cur = d.get(name, MISSING)
-        if name in CONTS and old_present and old is not cur:
-            self.retired.append(("old %r.%s#%d" % (obj, name, self.nstep), CONTS[name], old))
+        ck = self.cont_kind(obj, name)
+        if ck and old_present and old is not cur and _ckind(old):
+            self.retired.append(("old %r.%s#%d" % (obj, name, self.nstep), ck, old))
+            self.retired_owner[id(old)] = (id(obj), name)
             del self.retired[:-6]
         m0, m1 = self._post(exc, what)
-        kind = "cont" if name in CONTS else "link"
+        if (id(obj), name) in self.readded:
+            for x in ([cur] if isinstance(cur, Node) else list(cur) if _ckind(cur) else []):
+                self.through_readd.add(id(x))
+        kind = "cont" if ck else "link"
         if old_present:
             fire = (old is not cur) and not _safe_eq(old, cur)
 
@@ -932,7 +1008,7 @@ class World:
             fire = len(cur) != 0
 
             def old_ok(o):
-                return isinstance(o, CONT_CLS[CONTS[name]]) and len(o) == 0
+                return isinstance(o, CONT_CLS[ck]) and len(o) == 0
         elif name == "cdef" and type(obj) is self.cls:
             shared = self.shared
             fire = (cur is not shared) and not _safe_eq(shared, cur)
@@ -959,6 +1035,8 @@ class World:
                                   old_ok, lambda v: v is cur, "assign-" + kind, name)
             if n:
                 self.sink.count("link_events_matched")
+                if (id(obj), name) in self.readded:
+                    self.sink.count("readd_events_matched")
             elif key in m0[k].depths and fire and not n0:
                 self.sink.count("quiet_link_silent")
                 self._sig(reg, "assign-" + kind, name, "quiet", 0)
@@ -983,21 +1061,88 @@ class World:
                 self._sig(reg, "read", name, "materialised", 0)
 
     # -- primitive: add_trait --------------------------------------------------
-    def do_add_trait(self, obj, name):
-        what = "%r.add_trait(%r)" % (obj, name)
+    def do_add_trait(self, obj, name, kind=None):
+        kind = kind or ADDABLE[name][0]
+        what = "%r.add_trait(%r, <%s>)" % (obj, name, kind)
         key = ("t", id(obj), "trait_added")
-        exc = self._run(lambda: obj.add_trait(name, make_added_trait(name)))
+        again = name in self.removed.get(id(obj), ())
+        exc = self._run(lambda: obj.add_trait(name, make_added_trait(name, kind)))
         if exc is None:
-            self.added.setdefault(id(obj), {})[name] = ADDABLE[name][0]
+            self.added.setdefault(id(obj), {})[name] = kind
+            if kind == "list":
+                self.any_dyn_list = True
+            self.removed.get(id(obj), set()).discard(name)
+            self.pending_readd = [x for x in self.pending_readd
+                                  if not (self.node(x[0]) is obj and x[1] == name)]
+            if again:
+                self.readded.add((id(obj), name))
+                self.sink.count("readd_ops")
         m0, m1 = self._post(exc, what)
+        # a List trait is added together with its `<name>_items` event trait: two trait_added
+        fired = 2 if kind == "list" else 1
         for k, reg in enumerate(self.regs):
             matched = key in m0[k].notif
-            n = self._judge_trait(k, reg, what, obj, "trait_added", {1} if matched else {0},
-                                  "trait-added", lambda o: True, lambda v: v == name, "add_trait", name)
+            n = self._judge_trait(k, reg, what, obj, "trait_added", {fired} if matched else {0},
+                                  "trait-added", lambda o: True, lambda v: v in (name, name + "_items"),
+                                  "add_trait", name)
             if n:
                 self.sink.count("trait_added_events_matched")
             if ("t", id(obj), name) in m1[k].depths:
                 self.sink.count("added_trait_reached")
+                if again:
+                    self.sink.count("readd_reached")
+
+    # -- primitive: remove_trait (outside the statement; the way to a second add) ------
+    def do_remove_trait(self, obj, name):
+        """remove_trait drops the instance trait, its value and its notifiers
+        without any event (enthought/traits#1047), so whatever was hooked only
+        through it is left in an undefined state: those nodes are *tainted*
+        (never judged "must be silent" again, never used by the generators).
+        What is judged: the removal itself is silent, the name is no longer
+        matched, and a later add_trait of the name is tracked again."""
+        what = "%r.remove_trait(%r)" % (obj, name)
+        owners = {}
+        for n in self.pool + self.temp:
+            for _, _, c in self.conts_of(n):
+                owners[id(c)] = n
+        for lab, _, c in self.retired:
+            owners.setdefault(id(c), None)
+        val = obj.__dict__.get(name)
+        box = []
+        exc = self._run(lambda: box.append(obj.remove_trait(name)))
+        kind = self.added.get(id(obj), {}).pop(name, None)
+        self.removed.setdefault(id(obj), set()).add(name)
+        if _ckind(val):
+            self.tainted_conts.append(val)
+        for _, _, c in self.retired:
+            # its former values call back into the owner's (now missing) trait
+            if self.retired_owner.get(id(c)) == (id(obj), name):
+                self.tainted_conts.append(c)
+        m0, m1 = self._post(exc, what)
+        self.sink.count("remove_trait_ops")
+        for k, reg in enumerate(self.regs):
+            evs = self._events(k)
+            self.sink.ev()
+            if evs:
+                raise Complaint("spurious-event", "%s: handler %d got %r" % (what, k, evs[:2]),
+                                {"step": what, "reg": k})
+            for key, cnt in m0[k].visits.items():
+                if cnt > m1[k].visits.get(key, 0) and not (key[0] == "t" and key[1] == id(obj)
+                                                          and key[2] in (name, name + "_items")):
+                    if key[0] == "t":
+                        self.tainted.add(key[1])
+                    else:
+                        own = owners.get(key[1])
+                        if own is not None:
+                            self.tainted.add(id(own))
+            if ("t", id(obj), name) in m0[k].depths:
+                self.sink.count("remove_trait_reached")
+                self._sig(reg, "remove_trait", name, kind, 0)
+        if box and box[0] is not True:
+            raise Complaint("remove-trait-refused", "%s returned %r" % (what, box[0]), {"step": what})
+        idx = [i for i, n in enumerate(self.pool) if n is obj]
+        if idx:
+            self.pending_readd.append((idx[0], name, kind))
 
     # -- primitive: container mutation ------------------------------------------
     def do_cont(self, c, kind, fn, what, method):
@@ -1010,6 +1155,16 @@ class World:
         evcls = {"list": oapi.ListChangeEvent, "dict": oapi.DictChangeEvent,
                  "set": oapi.SetChangeEvent}[kind]
         dup = kind == "list" and len(set(map(id, after))) < len(after)
+        # a dynamically added List trait has a `<name>_items` event trait that `*` matches and
+        # that the list fires while it is the trait's value: such an event is the list
+        # mutation seen through that auxiliary trait; its firing rules are not part of the
+        # statement, so at most one such event is tolerated and never required or forbidden
+        items_key = None
+        if kind == "list" and self.any_dyn_list:
+            for nd in self.pool + self.temp:
+                for nm, kd in self.added.get(id(nd), {}).items():
+                    if kd == "list" and nd.__dict__.get(nm) is c:
+                        items_key = ("t", id(nd), nm + "_items")
         for k, reg in enumerate(self.regs):
             n0, n1 = key in m0[k].notif, key in m1[k].notif
             if n0 and n1:
@@ -1019,10 +1174,15 @@ class World:
             else:
                 allowed = {0}
             good = []
+            seen_items = 0
             for e in self._events(k):
                 if type(e) in (oapi.ListChangeEvent, oapi.DictChangeEvent, oapi.SetChangeEvent) \
                         and e.object is c:
                     good.append(e)
+                elif items_key and type(e) is oapi.TraitChangeEvent and id(e.object) == items_key[1] \
+                        and e.name == items_key[2] and not seen_items:
+                    seen_items += 1
+                    self.sink.count("dyn_items_events")
                 elif type(e) is evcls and max(allowed) >= 1:
                     raise Complaint("container-event-wrong-object",
                                     "%s: handler %d got %r, the mutated container is another object"
@@ -1182,6 +1342,12 @@ class World:
         sid = id(self.shared)
         return any(k[0] == "t" and k[1] == sid for m in self.models for k in m.depths)
 
+    def touches_tainted(self, op):
+        if not self.tainted or op[0] == "observe":
+            return False
+        nodes = [self.node(op[1])] + [self.node(t) for t in self.targets(op)]
+        return any(n is not None and id(n) in self.tainted for n in nodes)
+
     def would_cycle(self, op):
         a = self.node(op[1])
         if a is None:
@@ -1207,14 +1373,16 @@ class World:
             _, _, tr, b = op
             if self.unread_default_assign(op):
                 self.selfdef = True
-            if not self.has(a, tr):
+            if not self.has(a, tr) or not (tr in LINKS or self.added.get(id(a), {}).get(tr) == "link"):
                 return
             if b is not None and self.node(b) is None:
                 return
             self.do_assign(a, tr, self.node(b))
         elif k == "setcont":
             _, _, tr, payload = op
-            kind = CONTS[tr]
+            kind = self.cont_kind(a, tr)
+            if kind is None or not self.has(a, tr):
+                return
             if kind == "dict":
                 val = {kk: self.node(i) for kk, i in payload if self.node(i) is not None}
             else:
@@ -1224,8 +1392,10 @@ class World:
             self.do_assign(a, tr, val)
         elif k == "recont":
             tr = op[2]
+            kind = self.cont_kind(a, tr)
+            if kind is None or not self.has(a, tr):
+                return
             c = self.read_cont(a, tr)
-            kind = CONTS[tr]
             self.do_assign(a, tr, dict(c) if kind == "dict" else set(c) if kind == "set" else list(c))
         elif k == "read":
             if self.has(a, op[2]):
@@ -1234,9 +1404,14 @@ class World:
                 self.do_read(a, op[2])
         elif k == "add_trait":
             if not self.has(a, op[2]):
-                self.do_add_trait(a, op[2])
+                self.do_add_trait(a, op[2], op[3] if len(op) > 3 else None)
+        elif k == "remove_trait":
+            if op[2] in self.added.get(id(a), ()):
+                self.do_remove_trait(a, op[2])
         elif k in ("l", "d", "s"):
             tr, method = op[2], op[3]
+            if self.cont_kind(a, tr) is None or not self.has(a, tr):
+                return
             c = self.read_cont(a, tr)
             fn = self._mutation(k, c, method, op[4:])
             if fn is None:
@@ -1249,7 +1424,10 @@ class World:
                 if any(x is not None and x is not e and _safe_eq(x, e) and hash(x) == hash(e)
                        for x in args for e in list(c)):
                     self.twin = True
-            self.do_cont(c, CONTS[tr], fn, "%r.%s.%s%r" % (a, tr, method, tuple(op[4:])), method)
+            self.do_cont(c, self.cont_kind(a, tr), fn, "%r.%s.%s%r" % (a, tr, method, tuple(op[4:])),
+                         method)
+            if (id(a), tr) in self.readded:
+                self.through_readd.update(map(id, c))
         else:
             raise AssertionError(op)
 
@@ -1414,23 +1592,25 @@ class World:
                 self.do_probe(n, nm)
         visited, others = [], []
         for n in self.pool:
-            for tr, kind in CONTS.items():
-                c = n.__dict__.get(tr)
-                if c is None:
-                    continue
+            if id(n) in self.tainted:
+                continue               # its containers may carry hooks remove_trait orphaned
+            for tr, kind, c in self.conts_of(n):
                 ent = ("%r.%s" % (n, tr), kind, c)
                 if any(("c", id(c)) in m.depths for m in self.models):
                     visited.append(ent)
                 else:
                     others.append(ent)
         r = self.nstep
-        chosen = _rotate(visited, r, 5) + _rotate(others, r, 2) + _rotate(self.retired, r, 2)
+        retired = [x for x in self.retired if not any(x[2] is t for t in self.tainted_conts)]
+        chosen = _rotate(visited, r, 5) + _rotate(others, r, 2) + _rotate(retired, r, 2)
         for lab, kind, c in chosen:
             self.container_probe(lab, kind, c)
 
     def container_probe(self, lab, kind, c):
         fresh = self.cls(ser=900 + len(self.temp))
         self.temp.append(fresh)
+        if self.dyn:
+            self._give_dyn(fresh)
         retired = lab.startswith("old ")
         if kind == "list":
             if self.nstep % 2:
@@ -1464,7 +1644,8 @@ class World:
 
 
 OPCLASS = {"set": "assign-link", "setcont": "assign-container", "recont": "assign-equal-container",
-           "read": "default-read", "add_trait": "add-trait", "observe": "registration"}
+           "read": "default-read", "add_trait": "add-trait", "remove_trait": "remove-trait",
+           "observe": "registration"}
 
 
 def _rotate(seq, r, n):
@@ -1645,6 +1826,13 @@ def shrink(spec, actions, key):
     return ddmin(list(actions), test)
 
 
+def _trait_src(name, kind=None):
+    if name in ("x0", "y0", "items"):
+        return {"x0": "Int(tag=True)", "y0": "Int()", "items": "Instance(Node, link=True)"}[name]
+    kind = kind or ADDABLE[name][0]
+    return {"int": "Int()", "link": "Instance(Node)", "list": "List(Instance(Node))"}[kind]
+
+
 def script(spec, actions):
     """Human-readable rendering of a history (plain Python against traits)."""
     lines = ["pool = [%s(ser=i) for i in range(%d)]   # n0..n%d%s"
@@ -1656,6 +1844,10 @@ def script(spec, actions):
              % (spec["npool"], spec["npool"] - 1,
                 "class body `cdef = n%d` overriding Instance('Node')" % spec["npool"]
                 if spec.get("cflavour", "override") == "override" else "cdef = Any(n%d)" % spec["npool"])]
+    if spec.get("dyn"):
+        lines.append("for n in n0..n%d (and every probe node): n.add_trait(%r, %s)   # before observe()"
+                     % (spec["npool"], spec["dyn"]["name"],
+                        _trait_src(spec["dyn"]["name"], spec["dyn"]["kind"])))
     for act in actions:
         k = act[0]
         if k == "observe":
@@ -1664,11 +1856,11 @@ def script(spec, actions):
         elif k == "set":
             lines.append("n%d.%s = %s" % (act[1], act[2], "None" if act[3] is None else "n%d" % act[3]))
         elif k == "setcont":
-            if CONTS[act[2]] == "dict":
+            if CONTS.get(act[2], "list") == "dict":
                 v = "{" + ", ".join("%r: n%d" % (a, b) for a, b in act[3]) + "}"
             else:
                 v = "[" + ", ".join("n%d" % b for b in act[3]) + "]"
-                if CONTS[act[2]] == "set":
+                if CONTS.get(act[2], "list") == "set":
                     v = "set(%s)" % v
             lines.append("n%d.%s = %s" % (act[1], act[2], v))
         elif k == "recont":
@@ -1677,8 +1869,10 @@ def script(spec, actions):
         elif k == "read":
             lines.append("n%d.%s   # read" % (act[1], act[2]))
         elif k == "add_trait":
-            lines.append("n%d.add_trait(%r, %s)" % (act[1], act[2],
-                         {"x0": "Int(tag=True)", "y0": "Int()", "items": "Instance(Node, link=True)"}[act[2]]))
+            kd = act[3] if len(act) > 3 else None
+            lines.append("n%d.add_trait(%r, %s)" % (act[1], act[2], _trait_src(act[2], kd)))
+        elif k == "remove_trait":
+            lines.append("n%d.remove_trait(%r)" % (act[1], act[2]))
         else:
             a, tr, m, args = act[1], act[2], act[3], act[4:]
             tgt = "n%d.%s" % (a, tr)
@@ -1764,6 +1958,11 @@ def gen_op(rng, W, names, cyclic):
     conts_pref = [x for x in CONTS if x in names] or list(CONTS)
     add_pref = [x for x in ADDABLE if x in names]
     table = OP_TABLE + ([("add_trait", 6)] if add_pref else [])
+    # dynamic traits that could be taken away (remove_trait) to be added again later
+    removable = [(i, nm) for i, p in enumerate(W.pool) if id(p) not in W.tainted
+                 for nm in W.added.get(id(p), ())]
+    if removable and W.regs:
+        table = table + [("remove_trait", 8 if W.dyn else 3)]
 
     def pick_a():
         if vis_idx and rng.random() < 0.65:
@@ -1794,11 +1993,20 @@ def gen_op(rng, W, names, cyclic):
             tr = pick_link()
             if "items" in W.added.get(id(node), ()) and rng.random() < 0.4:
                 tr = "items"
+            if W.added.get(id(node), {}).get("xlink") == "link" and rng.random() < (
+                    0.55 if "xlink" in names else 0.1):
+                tr = "xlink"
             op = ["set", a, tr, pick_b(a)]
+        elif k == "remove_trait":
+            good = [x for x in removable if x[0] in vis_idx and x[1] in names]
+            i, nm = rng.choice(good) if good and rng.random() < 0.75 else rng.choice(removable)
+            op = ["remove_trait", i, nm]
         elif k == "setcont":
             tr = pick_cont()
+            if W.cont_kind(node, "xlist") and rng.random() < (0.45 if "xlist" in names else 0.1):
+                tr = "xlist"
             cnt = rng.randint(0, 3)
-            if CONTS[tr] == "dict":
+            if CONTS.get(tr, "list") == "dict":
                 op = ["setcont", a, tr, [[rng.choice(KEYS), pick_b(a, False)] for _ in range(cnt)]]
             else:
                 items = [pick_b(a, False) for _ in range(cnt)]
@@ -1806,7 +2014,8 @@ def gen_op(rng, W, names, cyclic):
                     items[1] = items[0]
                 op = ["setcont", a, tr, items]
         elif k == "recont":
-            op = ["recont", a, pick_cont()]
+            op = ["recont", a, "xlist" if W.cont_kind(node, "xlist") and "xlist" in names
+                  and rng.random() < 0.45 else pick_cont()]
         elif k == "read":
             if "cdef" in names and rng.random() < 0.5:
                 op = ["read", a, "cdef"]
@@ -1819,6 +2028,8 @@ def gen_op(rng, W, names, cyclic):
                 op = ["add_trait", a, rng.choice(["x0", "x0", "y0", "items"])]
         elif k == "l":
             tr = "children"
+            if W.cont_kind(node, "xlist") and rng.random() < (0.6 if "xlist" in names else 0.1):
+                tr = "xlist"
             m = _wchoice(rng, L_METHODS)
             b = pick_b(a, False)
             if m == "append":
@@ -1870,8 +2081,10 @@ def gen_op(rng, W, names, cyclic):
             continue
         if W.unread_default_assign(op):
             continue                   # drawn in stratum 'm' only (open finding)
+        if W.touches_tainted(op):
+            continue                   # nodes whose hooks a remove_trait left undefined
         return op
-    return ["set", rng.randrange(n), "child", None]
+    return ["read", 0, "child"]
 
 
 def names_in(ast, acc=None):
@@ -1948,7 +2161,7 @@ def seed_ops(rng, paths, root, npool, cyc, pre=True):
             kind, arg = "trait", rng.choice(["child", "other"])
         if kind != "trait":
             break
-        if arg in LINKS:
+        if arg in LINKS or arg == "xlink":
             if arg == "lazy" and rng.random() < 0.4:
                 ops.append(["read", cur, "lazy"])
                 break
@@ -1967,13 +2180,13 @@ def seed_ops(rng, paths, root, npool, cyc, pre=True):
             ops.append(["set", cur, arg, n])
             cur = n
             i += 1
-        elif arg in CONTS:
+        elif arg in CONTS or arg == "xlist":
             n = nxt()
             members = [n] + [nxt() for _ in range(rng.choice([0, 0, 1, 2]))]
             if len(members) > 1 and rng.random() < 0.3:
                 members[1] = members[0]            # the same object twice
             rng.shuffle(members)
-            if CONTS[arg] == "dict":
+            if CONTS.get(arg, "list") == "dict":
                 ops.append(["setcont", cur, arg, [[KEYS[q % 3], b] for q, b in enumerate(members)]])
             else:
                 ops.append(["setcont", cur, arg, members])
@@ -1986,16 +2199,62 @@ def seed_ops(rng, paths, root, npool, cyc, pre=True):
     return ops
 
 
+def gen_dyn_expr(rng, name, kind):
+    """Ordinary (non-optional) expression naming the dynamic trait `name`;
+    returns (ast, terminal) - terminal: nothing is observed below the name."""
+    def conn():
+        return rng.choice("..:")
+    r = rng.random()
+    if kind == "int" or r < 0.22:
+        body, terminal = ("name", name), True
+        if kind == "int" and rng.random() < 0.25:
+            body = ("par", [("name", "value"), ("name", name)])
+    elif kind == "link":
+        tail = rng.choice([("name", "value"), ("name", "value"), ("par", [("name", "value"), ("name", "m1")]),
+                           ("meta", "tag"), ("any",), ("ser", ("name", "child"), conn(), ("name", "value")),
+                           ("ser", ("ser", ("name", "children"), conn(), ("items",)), conn(),
+                            ("name", "value")),
+                           ("ser", ("name", name), conn(), ("name", "value"))])
+        body, terminal = ("ser", ("name", name), conn(), tail), False
+    else:
+        if r < 0.42:
+            body = ("ser", ("name", name), conn(), ("items",))
+        else:
+            tail = rng.choice([("name", "value"), ("name", "value"),
+                               ("par", [("name", "value"), ("name", "m1")]), ("any",),
+                               ("ser", ("name", "child"), conn(), ("name", "value"))])
+            body = ("ser", ("ser", ("name", name), conn(), ("items",)), conn(), tail)
+        terminal = False
+    pre = rng.choice([None, None, ("name", "child"), ("name", "child"), ("name", "other"),
+                      ("par", [("name", "child"), ("name", "other")]), ("name", "cdef"),
+                      ("ser", ("name", "children"), conn(), ("items",)),
+                      ("ser", ("name", "child"), conn(), ("name", "child"))])
+    ast = body if pre is None else ("ser", pre, conn(), body)
+    return ast, terminal
+
+
 def random_history(ctx, rng, stratum):
     cyc = stratum == "c"
     npool = rng.randint(5, 6)
     nreg = 1 if rng.random() < 0.7 else 2
     regs = []
+    dyn = None
+    if stratum == "r":
+        # named dynamic traits: exist before observe(), removed and added again later
+        dname = rng.choice(DYN_NAMES)
+        dyn = {"name": dname, "kind": ADDABLE[dname][0], "terminal": True}
     for k in range(nreg):
         root = 0 if (k == 0 or rng.random() < 0.5) else rng.randrange(npool)
-        regs.append(make_reg(rng, pick_ast(rng, ctx, cyc), root, cyc))
+        if dyn and (k == 0 or rng.random() < 0.5):
+            ast, terminal = gen_dyn_expr(rng, dyn["name"], dyn["kind"])
+            dyn["terminal"] = dyn["terminal"] and terminal
+        else:
+            ast = pick_ast(rng, ctx, cyc)
+        regs.append(make_reg(rng, ast, root, cyc))
     spec = {"alleq": rng.random() < 0.25, "npool": npool, "regs": regs, "stratum": stratum,
             "cflavour": rng.choice(["override", "any"])}
+    if dyn:
+        spec["dyn"] = dyn
     names = set()
     for rs in regs:
         names_in(rs["ast"], names)
@@ -2028,24 +2287,99 @@ def random_history(ctx, rng, stratum):
             return ["observe", item[1]]
         if item[0] == "op":
             op = item[1]
-            if (not cyc and W.would_cycle(op)) or W.unread_default_assign(op):
+            if (not cyc and W.would_cycle(op)) or W.unread_default_assign(op) or W.touches_tainted(op):
                 return ["read", op[1], "child"]
             return op
+        if W.pending_readd:
+            # a removed dynamic trait usually comes back (at once when an expression requires
+            # it), under the same kind or - if nothing is observed below it - another one
+            idx, nm, kd = W.pending_readd[0]
+            if any(m.degraded for m in W.models) or rng.random() < 0.8:
+                if nm in DYN_NAMES:
+                    below = dyn is not None and not dyn["terminal"] and nm == dyn["name"]
+                    if not below and rng.random() < 0.4:
+                        kd = rng.choice(["int", "link", "list"])
+                    W.after_readd = (idx, nm, kd)
+                    return ["add_trait", idx, nm, kd]
+                return ["add_trait", idx, nm]
+            W.pending_readd.pop(0)
+        if W.after_readd:
+            # ... and is used again: assign / mutate through it
+            (idx, nm, kd), W.after_readd = W.after_readd, None
+            if rng.random() < 0.8 and kd in ("link", "list"):
+                free = [j for j, n in enumerate(W.pool) if id(n) not in W.tainted and j != idx]
+                rng.shuffle(free)
+                for b in free[:4]:
+                    op = ["set", idx, nm, b] if kd == "link" else \
+                        rng.choice([["l", idx, nm, "append", b], ["setcont", idx, nm, [b]],
+                                    ["l", idx, nm, "extend", [b, b]]])
+                    if cyc or not W.would_cycle(op):
+                        return op
         if W.last_rep is not None:
             # after a multiplicity-changing slice assignment: usually take one
             # occurrence of an involved object out of the list again
             objs, W.last_rep = W.last_rep, None
             if rng.random() < 0.75:
                 for ai, n in enumerate(W.pool):
-                    c = n.__dict__.get("children")
-                    if c is None:
-                        continue
-                    idxs = [j for j, x in enumerate(c) if any(x is o for o in objs)]
-                    if idxs and any(c[j] is objs[0] for j in idxs):
-                        return ["l", ai, "children", rng.choice(["delitem", "pop", "remove"]),
-                                rng.choice(idxs)]
+                    for tr, kd, c in W.conts_of(n):
+                        if kd != "list" or id(n) in W.tainted:
+                            continue
+                        idxs = [j for j, x in enumerate(c) if any(x is o for o in objs)]
+                        if idxs and any(c[j] is objs[0] for j in idxs):
+                            return ["l", ai, tr, rng.choice(["delitem", "pop", "remove"]),
+                                    rng.choice(idxs)]
         return gen_op(rng, W, names, cyc)
     return spec, [], gen
+
+
+def named_dynamic_cases():
+    """Stratum 'n' (enumerated): a named dynamic trait that exists when an
+    ordinary expression is observed is removed and added again (same or another
+    kind), then used again."""
+    out = []
+    exprs = {
+        "int": ["xint", "child.xint", "child:xint", "[value,xint]", "children.items.xint",
+                "[child,other].xint"],
+        "link": ["xlink", "child.xlink", "xlink.value", "child.xlink.value", "child:xlink:value",
+                 "xlink:value", "children.items.xlink.value", "xlink.children.items.value",
+                 "child.xlink.*"],
+        "list": ["xlist", "xlist.items", "xlist.items.value", "child.xlist.items.value",
+                 "child:xlist:items:value", "child.xlist"],
+    }
+    for kind, texts in exprs.items():
+        name = "x" + kind
+        for text in texts:
+            terminal = text.endswith(name) or text.endswith(name + "]")
+            if text.startswith("child") and not text.startswith("children"):
+                pre, own = [["set", 0, "child", 1]], 1
+            elif text.startswith("[child"):
+                pre, own = [["set", 0, "child", 1], ["set", 0, "other", 1]], 1
+            elif text.startswith("children"):
+                pre, own = [["setcont", 0, "children", [1, 2]]], 1
+            else:
+                pre, own = [], 0
+            use1 = {"int": [], "link": [["set", own, name, 3]],
+                    "list": [["setcont", own, name, [3, 4]]]}[kind]
+            use2 = {"int": [], "link": [["set", own, name, 4], ["set", own, name, None]],
+                    "list": [["l", own, name, "append", 4], ["l", own, name, "delitem", 0]]}[kind]
+            flows = [("same", [["remove_trait", own, name], ["add_trait", own, name, kind]] + use2),
+                     ("twice", [["remove_trait", own, name], ["add_trait", own, name, kind],
+                                ["remove_trait", own, name], ["add_trait", own, name, kind]] + use2),
+                     ("unset", None)]
+            if terminal:
+                other = {"int": "link", "link": "list", "list": "int"}[kind]
+                flows.append(("other-kind", [["remove_trait", own, name], ["add_trait", own, name, other]]
+                              + {"int": [], "link": [["set", own, name, 4]],
+                                 "list": [["setcont", own, name, [4]]]}[other]))
+            for fname, post in flows:
+                for form in ("text", "expr"):
+                    if post is None:      # the trait was never given a value before the removal
+                        acts = pre + [["observe", 0], ["remove_trait", own, name],
+                                      ["add_trait", own, name, kind]] + use1
+                    else:
+                        acts = pre + use1 + [["observe", 0]] + post
+                    out.append((kind, name, terminal, text, fname, form, acts))
+    return out
 
 
 def multiplicity_cases():
@@ -2264,6 +2598,27 @@ def run(ctx):
                     report(ctx, spec, actions, res, cid)
         finally:
             ctx.end()
+    # ---- stratum n: named dynamic traits removed and added again (enumerated) -----------
+    for ni, (kind, name, terminal, text, fname, form, acts) in enumerate(named_dynamic_cases()):
+        if not ctx.mine(ni):
+            continue
+        cid = "n:%d" % ni
+        if not ctx.begin(cid, {"expr": text, "flow": fname, "form": form}):
+            continue
+        try:
+            ast = parse_text(text)
+            for alleq in (False, True):
+                rs = {"root": 0, "ast": ast, "text": text, "form": form,
+                      "show": repr(text) if form == "text" else describe_ast(ast), "bound": False}
+                spec = {"alleq": alleq, "npool": 5, "regs": [rs], "stratum": "n",
+                        "dyn": {"name": name, "kind": kind, "terminal": terminal}}
+                actions = [list(a) for a in acts]
+                res = execute(spec, actions, ctx)
+                ctx.count("histories_named_dynamic")
+                if res["key"]:
+                    report(ctx, spec, actions, res, cid)
+        finally:
+            ctx.end()
     # ---- stratum e: equal twins in an observed set (enumerated) ---------------------
     ei = 0
     for text in ("cset.items", "cset.items.value", "cset:items.value", "child.cset.items.value",
@@ -2292,7 +2647,8 @@ def run(ctx):
                 finally:
                     ctx.end()
     # ---- strata t / c: random histories ------------------------------------------
-    for stratum, nh in (("t", ctx.scale(1600, 60000)), ("c", ctx.scale(600, 20000))):
+    for stratum, nh in (("t", ctx.scale(1600, 60000)), ("c", ctx.scale(600, 20000)),
+                        ("r", ctx.scale(400, 12000))):
         for h in range(nh):
             if not ctx.mine(h):
                 continue
@@ -2304,7 +2660,8 @@ def run(ctx):
                 spec, actions, gen = random_history(ctx, rng, stratum)
                 res = execute(spec, actions, ctx, gen)
                 W = res["world"]
-                ctx.count("histories_acyclic" if stratum == "t" else "histories_cyclic")
+                ctx.count({"t": "histories_acyclic", "c": "histories_cyclic",
+                           "r": "histories_dynamic"}[stratum])
                 if W.multi:
                     ctx.count("multi_level_histories")
                     if stratum == "t":
